@@ -1,9 +1,10 @@
 import LapyVerif.Model.Geo
+import LapyVerif.Props.C08
 import LapyVerif.Props.C06
 import LapyVerif.Props.C03
 import LapyVerif.Bridge.DiffGeo
 import LapyVerif.Bridge.Fem
-/- axiom audit of C08 (composition theorems are added in Props/C08.lean) -/
+/- axiom audit of C08 (ingredients, then the composition theorems of Props/C08.lean) -/
 #print axioms LapyVerif.Props.C06.triDiv_sum_zero
 #print axioms LapyVerif.Props.C06.tetDiv_sum_zero
 #print axioms LapyVerif.Props.C06.triDiv_grad
@@ -18,3 +19,35 @@ import LapyVerif.Bridge.Fem
 #print axioms LapyVerif.Bridge.DiffTetNeg_div
 #print axioms LapyVerif.Bridge.fem_tria_A
 #print axioms LapyVerif.Bridge.fem_tet_A
+#print axioms LapyVerif.Props.C08.geo_rhs_compatible
+#print axioms LapyVerif.Props.C08.geo_rhs_compatible_tet
+#print axioms LapyVerif.Props.C08.rot_rhs_compatible
+#print axioms LapyVerif.Props.C08.geo_rhs_compatible_components
+#print axioms LapyVerif.Props.C08.geo_rhs_compatible_components_tet
+#print axioms LapyVerif.Props.C08.runMin_spec
+#print axioms LapyVerif.Props.C08.shiftMin_eq
+#print axioms LapyVerif.Props.C08.shiftMin_spec
+#print axioms LapyVerif.Props.C08.shiftMin_nil
+#print axioms LapyVerif.Props.C08.normSq_nonneg
+#print axioms LapyVerif.Props.C08.normSq_ne_zero_of_ne
+#print axioms LapyVerif.Props.C08.normalizeRow_eq
+#print axioms LapyVerif.Props.C08.normalizeRow_unit
+#print axioms LapyVerif.Props.C08.normalizeRow_zero
+#print axioms LapyVerif.Props.C08.mulVec_add
+#print axioms LapyVerif.Props.C08.triGrad_affine_flat
+#print axioms LapyVerif.Props.C08.geo_field_affine_tri
+#print axioms LapyVerif.Props.C08.geo_affine_tri
+#print axioms LapyVerif.Props.C08.geo_solution_affine
+#print axioms LapyVerif.Props.C08.geo_field_affine_tet
+#print axioms LapyVerif.Props.C08.geo_affine_tet
+#print axioms LapyVerif.Props.C08.geo_solution_affine_tet
+#print axioms LapyVerif.Props.C08.unitVec_spec
+#print axioms LapyVerif.Props.C08.rotZ_spec
+#print axioms LapyVerif.Props.C08.triNormal_flat
+#print axioms LapyVerif.Props.C08.rot_field_affine
+#print axioms LapyVerif.Props.C08.rot_rhs_affine
+#print axioms LapyVerif.Props.C08.rot_solution_affine
+#print axioms LapyVerif.Props.C08.vtxSq_flat
+#print axioms LapyVerif.Props.C08.tsSq_triN
+#print axioms LapyVerif.Props.C08.tsSq_nonDegen
+#print axioms LapyVerif.Props.C08.tsSq_oriented
